@@ -16,6 +16,7 @@ import (
 	"filippo.io/age/internal/stream"
 	"filippo.io/age/xverif/internal/strm"
 	"filippo.io/age/xverif/internal/vk"
+	"filippo.io/age/xverif/props/armrd"
 	"filippo.io/age/xverif/props/c02"
 )
 
@@ -92,6 +93,15 @@ func Run(tier string) {
 	dstFaults(run, []*age.X25519Identity{id, id2}, seed)
 	srcFaults(run, id, seed)
 	armorSrcFaults(run, seed)
+	// the de-armoring reader as a machine (ArmorRead.tla): every position at which the source can fail, for canonical,
+	// truncated and malformed texts, every call replayed against armor.NewReader and poked again after its first error
+	if run.Thorough() {
+		armrd.Run(run, "armor-reader-faults", armrd.Config(1, 1, 8, 1, "{0, 1, 47, 48, 100}", 8, true, true), "", 0)
+		armrd.Run(run, "armor-reader-faults-all-seqs", armrd.Config(0, 0, 5, 1, "{1, 48}", 8, true, true), "", 0)
+	} else {
+		armrd.Run(run, "armor-reader-faults", armrd.Config(1, 0, 8, 1, "{1, 48, 100}", 8, true, true), "", 0)
+		armrd.Run(run, "armor-reader-faults-all-seqs", armrd.Config(0, 0, 4, 1, "{1, 48}", 8, true, true), "", 0)
+	}
 	run.Finish()
 }
 
